@@ -55,6 +55,8 @@ class World:
         self.next_id = 1
         self.fresh = []        # fresh run ids drawn, in order
         self.event_rid = {}    # tag -> run id carried by the last request for it (None = none)
+        self.unput = []        # released by the scheduler, message not yet made (database fault in that tick)
+        self.faulted = False
         self.seen_rids = set()
         self.tnum = {ALL: 0}
         for i, t in enumerate(env.targets):
@@ -189,7 +191,15 @@ class World:
                     pending[t] = True   # a name listed twice meets its own pending work
             self.trace.append(list(op))
             return
+        elif kind == 'dbfail':
+            # the next db.next() raises (database outage during a tick): monitors only
+            env.fail_next_db = True
+            self.faulted = True
+            self.trace.append(list(op))
+            return
         elif kind == 'disp':
+            n_rel = len(env.released_log)
+            fault_tick = bool(getattr(env, 'fail_next_db', False))
             # what every connection had been sent at the moment the tick itself fired the archive
             mark = {}
             env.fsm.on_archive = lambda: mark.update({w: len(decode(h.transport.written))
@@ -206,6 +216,27 @@ class World:
                                      f'task {m[1]}[{m[2]}] sent to connection {w} after this very tick had fired the '
                                      f'archive: the pipeline was no longer active')
             new = [[self.idx[t], self.tnum[tg], rid] for t, tg, rid, _nr in self.put_log]
+            # every task message is made for a unit the scheduler released (this tick, or an earlier tick that a
+            # database fault cut short) and every released unit gets its message: nothing is made up, nothing is lost
+            released = [(tag, tg) for batch in env.released_log[n_rel:] for tag, do in batch for tg in do]
+            puts = [(tag, tg) for tag, tg, _rid, _nr in self.put_log]
+            if not fault_tick:
+                expect = sorted(released + self.unput)
+                if sorted(puts) != expect:
+                    extra = sorted(set(puts) - set(expect))
+                    lost = sorted(set(expect) - set(puts))
+                    if extra:
+                        self.hit('message-fields',
+                                 f'task messages made for {extra}, which the scheduler did not release (released: '
+                                 f'{sorted(released)})')
+                    if lost:
+                        self.hit('task-lost-or-duplicated',
+                                 f'the scheduler released {lost} but no task message was made for them')
+                    if not extra and not lost:
+                        self.hit('task-lost-or-duplicated', f'task messages {sorted(puts)} for released units {expect}')
+                self.unput = []
+            else:
+                self.unput = sorted(set(released + self.unput) - set(puts))
             # message fields: run id 0 for regressions, else the id the triggering event carried,
             # else ONE fresh id per job and tick, strictly larger than every id used before
             per_job = {}
@@ -361,6 +392,14 @@ def scenarios(env):
                 ('archive', True), ('reg', True, 0), ('disp',), ('reply', 0.0), ('reg', True, 0), ('disp',), ('disp',)])
     out.append([('active', True), ('reg', True, 0), ('reg', True, 1), ('org', list(tags), 3, list(tg)), ('disp',),
                 ('archive', True), ('reply', 0.0), ('reg', True, 1), ('disp',), ('reply', 0.0), ('disp',)])
+    # a database outage during the tick that hands a job over: the next tick must make its messages
+    out.append([('active', True), ('reg', True, 0), ('reg', True, 1), ('org', list(tags), None, list(tg)), ('dbfail',),
+                ('disp',), ('disp',), ('reply', 0.0), ('disp',), ('disp',)])
+    # the same job is released twice while its first targets are still executing
+    if len(tg) > 1:
+        out.append([('active', True), ('reg', True, 0), ('reg', True, 1), ('reg', True, 2),
+                    ('org', [tags[0]], None, [tg[0]]), ('disp',), ('org', [tags[0]], None, [tg[1]]), ('disp',),
+                    ('disp',)])
     # reload: stale workers must not get work after the revision changed
     out.append([('active', True), ('reg', True, 1), ('active', False), ('setrev', 'rev1'), ('notify',), ('clear',),
                 ('active', True), ('reg', True, 1), ('reg', False, 1), ('org', [tags[0]], 4, list(tg)), ('disp',)])
@@ -374,8 +413,9 @@ def run_history(env, res, algs, ops, lines, pending):
     wld = World(env, res, algs)
     for op in ops:
         wld.step(op)
-    lines.append(common.sx(['farm', 'run', 0, wld.model_ops]))
-    pending.append((env, wld))
+    if not wld.faulted:     # a database outage is not in the model: monitors only
+        lines.append(common.sx(['farm', 'run', 0, wld.model_ops]))
+        pending.append((env, wld))
     nontrivial = any(m[0] == 'task' for o in wld.impl_obs for _w, m in o['written'])
     res.case(json.dumps(wld.trace, default=str), nontrivial=nontrivial,
              sample={'ops': wld.trace[:14]})
